@@ -134,6 +134,28 @@ func (m *Matcher) MatchRegexAndExpand(key, template []byte) (string, bool) {
 // regexToPrefix inspects the regex and returns the longest static prefix part of the regex
 // all inputs for which the regex match, must have this prefix
 func regexToPrefix(regex string) []byte {
+	// with an alternation at the top level, not every match has to start with the first branch
+	depth := 0
+	for i := 0; i < len(regex); i++ {
+		switch regex[i] {
+		case 92: // backslash: skip the escaped character
+			i++
+		case '[':
+			for i++; i < len(regex) && regex[i] != ']'; i++ {
+				if regex[i] == 92 {
+					i++
+				}
+			}
+		case '(':
+			depth++
+		case ')':
+			depth--
+		case '|':
+			if depth == 0 {
+				return []byte{}
+			}
+		}
+	}
 	substr := ""
 	for i := 0; i < len(regex); i++ {
 		ch := regex[i]
@@ -153,6 +175,12 @@ func regexToPrefix(regex string) []byte {
 		} else {
 			//fmt.Println("don't know what to do with", string(ch))
 			// anything more advanced should be regex syntax that is more permissive and hence not a static substring.
+			// a quantifier that allows zero repetitions makes the character before it optional
+			// (so does a flag group such as "(?i)": it is transparent to a quantifier that follows it)
+			optional := ch == '?' || ch == '*' || ch == '{' || (ch == '(' && i+1 < len(regex) && regex[i+1] == '?')
+			if optional && len(substr) > 0 {
+				substr = substr[:len(substr)-1]
+			}
 			break
 		}
 	}
